@@ -174,21 +174,24 @@ def verify(job):
     res = {'name': job.name, 'entry': job.entry, 'enforce': job.enforce, 'replace': job.replace,
            'status': 'ok', 'reason': '', 'obligations': 0, 'discharged': 0, 'failed': [],
            'canaries_fired': 0, 'canaries_total': 0, 'time': {}, 'meta': job.meta, 'log': log,
-           'lib_obligations': 0, 'samples': [], 'classes': {}}
+           'lib_obligations': 0, 'samples': [], 'classes': {}, 'tags': {}}
     a = os.path.join(wd, job.name + '.a.gb')
     b = os.path.join(wd, job.name + '.b.gb')
     c = os.path.join(wd, job.name + '.c.gb')
-    cmd = ['goto-cc', '--function', job.entry, '-o', a]
-    for k, v in job.defines.items():
-        cmd.append('-D%s=%s' % (k, v) if v is not None else '-D%s' % k)
-    for i in job.includes:
-        cmd += ['-I', i]
-    cmd += job.sources
-    rc, out, err, dt = run(cmd, 300, job.mem_gb, log=log)
-    res['time']['goto-cc'] = round(dt, 2)
-    if rc != 0:
-        res.update(status='error', reason='goto-cc failed rc=%s: %s' % (rc, (err or out)[-1500:]))
-        return res
+    if getattr(job, 'prebuilt', False):
+        a = job.sources[0]
+    else:
+        cmd = ['goto-cc', '--function', job.entry, '-o', a]
+        for k, v in job.defines.items():
+            cmd.append('-D%s=%s' % (k, v) if v is not None else '-D%s' % k)
+        for i in job.includes:
+            cmd += ['-I', i]
+        cmd += job.sources
+        rc, out, err, dt = run(cmd, 300, job.mem_gb, log=log)
+        res['time']['goto-cc'] = round(dt, 2)
+        if rc != 0:
+            res.update(status='error', reason='goto-cc failed rc=%s: %s' % (rc, (err or out)[-1500:]))
+            return res
     cur = a
     if job.loop_anchors:
         bad = check_loop_anchors(a, job.loop_anchors, log)
@@ -216,8 +219,11 @@ def verify(job):
         if job.apply_loop_contracts:
             cmd += ['--apply-loop-contracts']
         cmd += [cur, c]
-        rc, out, err, dt = run(cmd, 900, job.mem_gb, log=log)
+        rc, out, err, dt = run(cmd, getattr(job, 'instrument_timeout', 900), job.mem_gb, log=log)
         res['time']['instrument'] = round(dt, 2)
+        if rc != 0 and (rc == 'timeout' or 'Out of memory' in (err + out) or 'bad_alloc' in (err + out)):
+            res.update(status='error', reason='RESOURCE: goto-instrument --dfcc exceeded its budget (rc=%s, %.0fs, %s GB): %s' % (rc, dt, job.mem_gb, (err + out)[-300:]))
+            return res
         if rc != 0:
             res.update(status='error', reason='goto-instrument --dfcc failed rc=%s: %s' % (rc, (err + out)[-1500:]))
             return res
@@ -264,6 +270,12 @@ def verify(job):
         res['obligations'] += 1
         cls = pid.split('.')[-2] if pid.count('.') >= 2 else 'other'
         res['classes'][cls] = res['classes'].get(cls, 0) + 1
+        mt = re.match(r'(C\d+)\.', desc)
+        tag = mt.group(1) if mt else ''
+        tg = res['tags'].setdefault(tag, [0, 0])
+        tg[0] += 1
+        if st == 'SUCCESS':
+            tg[1] += 1
         if st == 'SUCCESS':
             res['discharged'] += 1
             if len(res['samples']) < 4 and ('postcondition' in pid or 'assertion' in pid or 'loop_' in pid):
@@ -271,7 +283,7 @@ def verify(job):
         else:
             if 'unwinding assertion' in desc or pid.endswith('.unwind') or '.unwind.' in pid:
                 unwind_fail = True
-            res['failed'].append({'property': pid, 'description': desc,
+            res['failed'].append({'property': pid, 'description': desc, 'tag': tag,
                                   'location': p.get('sourceLocation', {}), 'status': st})
             failed_ids.append(pid)
     if unwind_fail:
@@ -301,7 +313,7 @@ def verify(job):
                     if f['property'] == p.get('property'):
                         f['trace'] = trace_inputs(p['trace'])
     if not job.meta.get('keep_binaries') and not os.environ.get('VERIF_KEEP'):
-        for f in (a, b, c):
+        for f in ((b, c) if getattr(job, 'prebuilt', False) else (a, b, c)):
             if os.path.exists(f):
                 os.remove(f)
     return res
